@@ -284,6 +284,41 @@ theorem earlier_effects_durable (c : Cfg) (pre : List (Stmt Act)) (plan : List (
     (fun s hs x => applyAct_objs_untouched _ n (hbody _ (stmt_mem_bodyAtoms hs)) x)
   simpa using this
 
+/-! ### env.py variants: the theorems above (about `runFinal`) carry over -/
+
+theorem shape_stock_same (c : Cfg) (pre : List (Stmt α)) (progs : List (List (Atom α))) (db : σ) :
+    runShape ap .stock c pre progs db = (runFinal ap c pre progs db, runRaised ap c pre progs db) := by
+  unfold runShape runFinal runRaised finish
+  cases runMigrations ap c pre progs (beginTransaction c false (initSt c db)).2 <;> rfl
+
+theorem autobegin_idem (md : Mode) (st : St σ) : autobegin md (autobegin md st) = autobegin md st := by
+  unfold autobegin
+  cases h : st.sa
+  · simp [saBegin]
+  · simp [h]
+
+/-- A statement executed on the connection between `configure()` and `begin_transaction()`
+    changes nothing, in every configuration: the autobegun transaction is adopted. -/
+theorem shape_preStmt_same (c : Cfg) (pre : List (Stmt α)) (progs : List (List (Atom α))) (db : σ) :
+    runShape ap .preStmt c pre progs db = runShape ap .stock c pre progs db := by
+  have h1 : (beginTransaction c false (autobegin c.mode (initSt c db))).1 = (beginTransaction c false (initSt c db)).1 := by
+    unfold beginTransaction
+    cases c.external <;> cases c.tddl <;> cases c.perMig <;> simp [initSt, autobegin, saBegin]
+  have h2 : autobegin c.mode (beginTransaction c false (autobegin c.mode (initSt c db))).2 =
+      autobegin c.mode (beginTransaction c false (initSt c db)).2 := by
+    unfold beginTransaction
+    cases hx : c.external <;> cases c.tddl <;> cases c.perMig <;>
+      simp [initSt, autobegin, saBegin, hx]
+  unfold runShape runMigrations
+  simp only [h1, h2]
+
+/-- Calling `run_migrations()` without the outer `with context.begin_transaction():` changes
+    nothing in the per-migration regime (that level is a `nullcontext()` there). -/
+theorem shape_noOuter_same (c : Cfg) (h : PerMigRegime c) (pre : List (Stmt α)) (progs : List (List (Atom α))) (db : σ) :
+    runShape ap .noOuter c pre progs db = runShape ap .stock c pre progs db := by
+  unfold runShape
+  simp only [begin_outer_perMig c h]
+
 /-! ### several `configure()` calls in one env.py run: which settings does the k-th context get? -/
 
 /-- `transaction_per_migration` of a context is the argument of *its own* `configure()` call,
